@@ -1,8 +1,186 @@
-/- C06 — placeholder until the handle theorems are merged -/
-import SfModel.Handle
+/-
+  C06 — decoded audio depends only on frame position (partition and seek consistency), for the sample-granular
+  encodings of SfModel/Handle.lean.  Property theorems only (lemmas: SfProofs/HandleSeek.lean).
+
+  `itemStream h bytes ty` is the decoded item sequence of the data section: `decodeAll` of the store bytes from
+  `dataoffset` on.  Item `i` of frame `k`, channel `c` is `itemStream[k·ch + c]`.
+-/
+import SfProofs.HandleSeek
 namespace Sf.C06
-/-- a mode-qualified whence that contradicts the handle's mode fails with −1 and an error, changing nothing else -/
-theorem seek_wrong_mode (h : H) (s : Store) (off : Int) (hm : h.mode = .r) :
-    (stepSeek h s off 0x20).2.2.ret = -1 ∧ (stepSeek h s off 0x20).2.2.err ≠ 0 ∧ (stepSeek h s off 0x20).2.1 = s := by
-  simp [stepSeek, hm, E_WRONG_SEEK]
+open Sf
+
+/-! ## seek_result -/
+
+/-- For every offset, every whence value (any integer) and every mode, `sf_seek` either fails — returns −1, sets a
+    non-zero error and changes nothing else — or returns the requested absolute frame `base + offset` with error 0,
+    where `base` is 0 / the current read or write position / the frame count as `whence` says (`seekBase`).
+    On reachable states a successful result is never negative, so the two outcomes cannot be confused. -/
+theorem seek_result (h : H) (s : Store) (off whence : Int) :
+    let r := stepSeek h s off whence
+    (r.2.2.ret = -1 ∧ r.2.2.err ≠ 0 ∧ r.1 = { h with error := r.2.2.err } ∧ r.2.1 = s) ∨
+    (∃ base, seekBase h whence = some base ∧ r.2.2.ret = base + off ∧ r.2.2.err = 0 ∧ r.1.error = 0 ∧
+      r.2.1.bytes = s.bytes ∧ (HInv h s → 0 ≤ base + off)) :=
+  seek_result_any h s off whence
+
+/-- on a read-only handle a successful seek leaves the read position at the value returned, inside `[0, frames]`,
+    and changes nothing else a read depends on -/
+theorem seek_success_read_mode (h : H) (s : Store) (off whence : Int) (hi : HInv h s) (hm : h.mode = .r)
+    (hok : (stepSeek h s off whence).2.2.err = 0) :
+    let r := stepSeek h s off whence
+    r.1.rpos = r.2.2.ret ∧ SameFile h r.1 ∧ r.2.1.bytes = s.bytes ∧ r.1.error = 0 ∧ 0 ≤ r.2.2.ret ∧ r.2.2.ret ≤ h.frames :=
+  seek_success_rmode h s off whence hi hm hok
+
+/-! ## seek_cur_zero -/
+
+/-- `sf_seek (f, 0, SEEK_CUR)` reports the read position of a read-only handle, the write position of a write-only
+    handle, and changes nothing (it clears the error field); the mode-qualified forms `SEEK_CUR | SFM_READ`,
+    `SEEK_CUR | SFM_WRITE` do the same for the cursor they name, also on RDWR handles -/
+theorem seek_cur_zero (h : H) (s : Store) :
+    (h.mode = .r → stepSeek h s 0 1 = ({ h with error := 0 }, s, { ret := h.rpos, err := 0 })) ∧
+    (h.mode = .w → stepSeek h s 0 1 = ({ h with error := 0 }, s, { ret := h.wpos, err := 0 })) ∧
+    (h.mode ≠ .w → stepSeek h s 0 0x11 = ({ h with error := 0 }, s, { ret := h.rpos, err := 0 })) ∧
+    (h.mode ≠ .r → stepSeek h s 0 0x21 = ({ h with error := 0 }, s, { ret := h.wpos, err := 0 })) :=
+  ⟨seek_cur_zero_r h s, seek_cur_zero_w h s, seek_cur_zero_read_qualified h s, seek_cur_zero_write_qualified h s⟩
+
+/-- On a RDWR handle the unqualified form is a real seek to the *write* position: the value reported is the index
+    of the next frame a read delivers only because the call moves the read position there. -/
+theorem seek_cur_zero_rdwr (h : H) (s : Store) (hi : HInv h s) (hm : h.mode = .rw) :
+    stepSeek h s 0 1 = ({ h with error := 0, rpos := h.wpos, wpos := h.wpos, lastOp := .r }, defaultSeek h s h.wpos,
+      { ret := h.wpos, err := 0 }) :=
+  seek_cur_zero_rw h s hm hi.wpos_nn
+
+/-- in every mode that can read, the value a zero-offset SEEK_CUR reports is the read position afterwards -/
+theorem seek_cur_zero_reports_next_frame (h : H) (s : Store) (hi : HInv h s) (hm : h.mode ≠ .w) :
+    (stepSeek h s 0 1).2.2.ret = (stepSeek h s 0 1).1.rpos ∧ (stepSeek h s 0 1).2.2.err = 0 := by
+  rcases mode_cases h.mode with m | m | m
+  · rw [seek_cur_zero_r h s m]; exact ⟨rfl, rfl⟩
+  · exact absurd m hm
+  · rw [seek_cur_zero_rw h s m hi.wpos_nn]; exact ⟨rfl, rfl⟩
+
+/-- the full statement "a zero-offset SEEK_CUR reports the position and changes nothing but the error field" -/
+def seek_cur_zero_full : Prop :=
+  ∀ (h : H) (s : Store), HInv h s →
+    stepSeek h s 0 1 = ({ h with error := 0 }, s, { ret := if h.mode = .w then h.wpos else h.rpos, err := 0 })
+
+/-- what holds: every handle that is not RDWR -/
+theorem seek_cur_zero_partial (h : H) (s : Store) (hm : h.mode ≠ .rw) :
+    stepSeek h s 0 1 = ({ h with error := 0 }, s, { ret := if h.mode = .w then h.wpos else h.rpos, err := 0 }) := by
+  rcases mode_cases h.mode with m | m | m
+  · rw [seek_cur_zero_r h s m]; simp [m]
+  · rw [seek_cur_zero_w h s m]; simp [m]
+  · exact absurd m hm
+
+/-- witness: 8-frame mono RAW file opened RDWR, read cursor moved to 2 (`SEEK_SET | SFM_READ`), write cursor to 5
+    (`SEEK_SET | SFM_WRITE`) -/
+def rwStore : Store := { bytes := [1,0, 2,0, 3,0, 4,0, 5,0, 6,0, 7,0, 8,0], pos := 0 }
+def rwH0 : H := { store := 0, mode := .rw, container := .raw, enc := .pcm ⟨16, false, false⟩, big := false, ch := 1,
+                  sr := 8000, fmtWord := 0x040002, frames := 8, wpos := 8, lastOp := .rw, haveWritten := true,
+                  datalength := 16, filelength := 16 }
+def rwOps : List Op := [.seek 0 2 0x10, .seek 0 5 0x20]
+
+theorem rwH0_opened : openHandle 0 rwStore .rw 0x040002 1 8000 = .ok rwH0 rwStore := by rfl
+
+theorem seek_cur_zero_full_fails : ¬ seek_cur_zero_full := by
+  intro hfull
+  have hinv := HInv_reachable 0 rwStore .rw 0x040002 1 8000 rwH0 rwStore rwH0_opened rwOps
+  have := congrArg (fun r => r.1.rpos) (hfull _ _ hinv)
+  exact absurd this (by decide)
+
+/-- the same witness, spelled out: the read cursor was 2, SEEK_CUR reports 5 and leaves the read cursor at 5 -/
+example : (runOps rwH0 rwStore rwOps).1.rpos = 2 ∧ (runOps rwH0 rwStore rwOps).1.wpos = 5 ∧
+    (stepSeek (runOps rwH0 rwStore rwOps).1 (runOps rwH0 rwStore rwOps).2 0 1).2.2.ret = 5 ∧
+    (stepSeek (runOps rwH0 rwStore rwOps).1 (runOps rwH0 rwStore rwOps).2 0 1).1.rpos = 5 := by decide
+
+/-! ## seek_then_read -/
+
+/-- If `sf_seek` reports success with result `k` on a read-only handle, the following read returns exactly what any
+    read-only handle on the same file whose read position is `k` returns: the result depends only on `k` and the
+    store bytes. -/
+theorem seek_then_read (h : H) (s : Store) (off whence : Int) (hi : HInv h s) (hm : h.mode = .r)
+    (hok : (stepSeek h s off whence).2.2.err = 0)
+    (h2 : H) (s2 : Store) (hi2 : HInv h2 s2) (sf : SameFile h h2) (hb : s2.bytes = s.bytes) (he2 : h2.error = 0)
+    (hk : h2.rpos = (stepSeek h s off whence).2.2.ret) (ty : Ty) (fc : Bool) (n : Int) :
+    (stepRead (stepSeek h s off whence).1 (stepSeek h s off whence).2.1 ty fc n).2.2 = (stepRead h2 s2 ty fc n).2.2 := by
+  obtain ⟨p1, sf1, b1, e1, _, _⟩ := seek_success_rmode h s off whence hi hm hok
+  have hm1 : (stepSeek h s off whence).1.mode = .r := by rw [← sf1.mode]; exact hm
+  refine read_out_depends _ _ _ _ ty fc n (HInv_stepSeek h s off whence hi) hi2 hm1 ?_ ?_ ?_ ?_
+  · exact ⟨sf1.enc.symm.trans sf.enc, sf1.conv.symm.trans sf.conv, sf1.ch.symm.trans sf.ch,
+      sf1.frames.symm.trans sf.frames, sf1.dataoffset.symm.trans sf.dataoffset, sf1.mode.symm.trans sf.mode⟩
+  · rw [p1, hk]
+  · rw [b1, hb]
+  · rw [e1, he2]
+
+/-- … and that result is frames `k, k+1, …` of the item stream: a valid request for `m` frames after a successful
+    seek to `k` delivers `d = min m (frames − k)` frames, which are items `k·ch … (k+d)·ch` of `itemStream`. -/
+theorem seek_then_read_stream (h : H) (s : Store) (off whence : Int) (hi : HInv h s) (hm : h.mode = .r)
+    (hok : (stepSeek h s off whence).2.2.err = 0) (ty : Ty) (fc : Bool) (n : Int)
+    (hn : 0 < n) (ha : fc = true ∨ n % (h.ch : Int) = 0) :
+    let k := (stepSeek h s off whence).2.2.ret
+    let r := stepRead (stepSeek h s off whence).1 (stepSeek h s off whence).2.1 ty fc n
+    ∃ m d : Nat, reqLen h fc n = (m : Int) * (h.ch : Int) ∧ (d : Int) = min (m : Int) (h.frames - k) ∧
+      r.2.2.ret = (if fc then (d : Int) else (d : Int) * (h.ch : Int)) ∧
+      r.1.rpos = k + d ∧
+      r.2.2.data.take (d * h.ch) = ((itemStream h s.bytes ty).drop (k.toNat * h.ch)).take (d * h.ch) := by
+  obtain ⟨p1, sf1, b1, _, _, _⟩ := seek_success_rmode h s off whence hi hm hok
+  have hm1 : (stepSeek h s off whence).1.mode = .r := by rw [← sf1.mode]; exact hm
+  have ha1 : fc = true ∨ n % ((stepSeek h s off whence).1.ch : Int) = 0 := by rw [← sf1.ch]; exact ha
+  obtain ⟨m, d, hl, hd, hret, hrp, _, _, hdat⟩ :=
+    read_rmode_full _ _ ty fc n (HInv_stepSeek h s off whence hi) hm1 hn ha1
+  refine ⟨m, d, ?_, ?_, ?_, ?_, ?_⟩
+  · rw [sf1.ch, ← hl]; unfold reqLen; rw [sf1.ch]
+  · rw [hd, ← sf1.frames, p1]
+  · rw [hret, ← sf1.ch]
+  · rw [hrp, p1]
+  · rw [sf1.ch, hdat, b1, ← SameFile.itemStream sf1, p1]
+
+/-! ## partition_invariance -/
+
+/-- Read-only handle, frames calls: reading `a` frames and then `b` frames returns, concatenated and restricted to the
+    items actually returned, the same items as one read of `a + b` frames, returns the same total, and leaves the same
+    read position. -/
+theorem partition_invariance (h : H) (s : Store) (ty : Ty) (a b : Nat) (hi : HInv h s) (hm : h.mode = .r) :
+    let r1 := stepRead h s ty true a
+    let r2 := stepRead r1.1 r1.2.1 ty true b
+    let r3 := stepRead h s ty true ((a + b : Nat) : Int)
+    r1.2.2.ret + r2.2.2.ret = r3.2.2.ret ∧
+    r2.1.rpos = r3.1.rpos ∧
+    r1.2.2.data.take (r1.2.2.ret.toNat * h.ch) ++ r2.2.2.data.take (r2.2.2.ret.toNat * h.ch) =
+      r3.2.2.data.take (r3.2.2.ret.toNat * h.ch) :=
+  partition_frames h s ty a b hi hm
+
+/-- the same for items calls (`a`, `b` frames requested as `a·ch`, `b·ch` items) -/
+theorem partition_invariance_items (h : H) (s : Store) (ty : Ty) (a b : Nat) (hi : HInv h s) (hm : h.mode = .r) :
+    let r1 := stepRead h s ty false ((a * h.ch : Nat) : Int)
+    let r2 := stepRead r1.1 r1.2.1 ty false ((b * h.ch : Nat) : Int)
+    let r3 := stepRead h s ty false (((a + b) * h.ch : Nat) : Int)
+    r1.2.2.ret + r2.2.2.ret = r3.2.2.ret ∧
+    r2.1.rpos = r3.1.rpos ∧
+    r1.2.2.data.take r1.2.2.ret.toNat ++ r2.2.2.data.take r2.2.2.ret.toNat = r3.2.2.data.take r3.2.2.ret.toNat :=
+  partition_items h s ty a b hi hm
+
+/-- the two call variants agree: `n` frames through the frames call = `n·ch` items through the items call (same new
+    state, same buffer, same error; the return value counts frames instead of items) — every mode, every `n` -/
+theorem call_variants_agree (h : H) (s : Store) (ty : Ty) (n : Int) (hi : HInv h s) :
+    let rf := stepRead h s ty true n
+    let ri := stepRead h s ty false (n * (h.ch : Int))
+    rf.1 = ri.1 ∧ rf.2.1 = ri.2.1 ∧ rf.2.2.data = ri.2.2.data ∧ rf.2.2.err = ri.2.2.err ∧
+    rf.2.2.ret = ri.2.2.ret / (h.ch : Int) :=
+  read_frames_vs_items h s ty n hi
+
+/-! ## non-vacuity: the 3-frame stereo file of C05 -/
+
+def exStore : Store := { bytes := [1,0, 2,0, 3,0, 4,0, 5,0, 6,0], pos := 0 }
+def exH : H := { store := 0, mode := .r, container := .raw, enc := .pcm ⟨16, false, false⟩, big := false, ch := 2,
+                 sr := 8000, fmtWord := 0x040002, frames := 3, lastOp := .r, datalength := 12, filelength := 12 }
+
+example : HInv exH exStore ∧ exH.mode = .r :=
+  ⟨HInv_openHandle 0 exStore .r 0x040002 2 8000 exH exStore (by rfl), rfl⟩
+/-- seek to frame 1 succeeds; the next read of 2 frames delivers items 2… of the stream; −1 with an error beyond
+    the end; 1 frame then 2 frames = 3 frames -/
+example : (stepSeek exH exStore 1 0).2.2.ret = 1 ∧ (stepSeek exH exStore 1 0).2.2.err = 0 ∧
+    (stepRead (stepSeek exH exStore 1 0).1 (stepSeek exH exStore 1 0).2.1 .s16 true 2).2.2.data = [3, 4, 5, 6] ∧
+    itemStream exH exStore.bytes .s16 = [1, 2, 3, 4, 5, 6] ∧
+    (stepSeek exH exStore 4 0).2.2.ret = -1 ∧ (stepSeek exH exStore 4 0).2.2.err ≠ 0 ∧
+    (stepSeek exH exStore (-1) 2).2.2.ret = 2 := by decide
+
 end Sf.C06
